@@ -209,9 +209,19 @@ func runCtl(j Job) Outcome {
 	// systematic drain: stop, release everything, consume until closed
 	if !out.Unquiet && !terminated {
 		step("S")
+		paceAfterStop := 0
 		for guard := 0; guard < 10000 && !terminated && !out.Unquiet; guard++ {
 			switch {
 			case o.PaceBlocked:
+				// After Stop the loop may still win the race "send a tick" against "see the stop signal" while a
+				// worker is free (Go's select picks at random), once per iteration: 64 wins in a row do not happen
+				// (2^-64) unless the loop no longer looks at the stop signal.
+				if paceAfterStop++; paceAfterStop > 64 {
+					out.Findings = append(out.Findings, Finding{Kind: "attack_does_not_end",
+						What: "after Stop the attack keeps consulting the pacer and releasing hits (more than 64 consultations after the stop signal)"})
+					guard = 10000
+					break
+				}
 				step("P")
 			case len(o.InTransport) > 0:
 				step("T" + strconv.FormatUint(o.InTransport[0], 10))
